@@ -658,6 +658,15 @@ fn main() {
             }
         }
     }
+    // every pattern of 4- and 5-character tokens up to length 11 (the decoder must not depend on
+    // token lengths or on how many promotions a list contains)
+    let max_pat = if tier == Tier::Quick { 11 } else { 14 };
+    for len in 1..=max_pat {
+        for mask in 0u32..(1 << len) {
+            let l: Vec<String> = (0..len).map(|i| if mask & (1 << i) != 0 { format!("{}7{}8{}", (b'a' + (i % 8) as u8) as char, (b'a' + ((i + 1) % 8) as u8) as char, ["q", "r", "b", "n"][i % 4]) } else { format!("{}2{}4", (b'a' + (i % 8) as u8) as char, (b'a' + (i % 8) as u8) as char) }).collect();
+            token_lists.push(l);
+        }
+    }
     let n_tokens = AtomicU64::new(0);
     par_map(&token_lists, |l| judge_tokens(&rep, l, &n_tokens));
 
